@@ -215,6 +215,46 @@ fn query_box(r: &mut Rng, h: &Hist, lat: bool) -> Aabb {
     else { let bb = h.boxes[*r.pick(&live)]; match r.below(3) { 0 => bb, 1 => moved(r, &bb, lat), _ => Aabb::new(bb.mins, bb.mins) } }
 }
 
+/// two trees whose leaves sit in four far-apart clusters: the `k` leaves of the small tree (one per cluster, all in ONE
+/// leaf node: 4 valid lanes when `k = 4`) each overlap a DIFFERENT child subtree of the big tree (built by
+/// `clear_and_rebuild`, which splits spatially, or by cluster-wise insertion), so in the (leaf, internal) and
+/// (internal, leaf) arms of the simultaneous traversals every lane decides about another child; both orders
+fn gen_bvtt_lanes(r: &mut Rng, thorough: bool, it: usize) -> (String, String) {
+    let lat = it % 2 == 0;
+    let centres = [(-12.0, -12.0), (12.0, -12.0), (-12.0, 12.0), (12.0, 12.0)];
+    let cell = |r: &mut Rng, c: usize, spread: f64| -> Aabb {
+        let (cx, cy) = centres[c];
+        let o = if lat { d3::Vector::new(r.range(-4, 4) as f64 * spread * 0.25, r.range(-4, 4) as f64 * spread * 0.25, r.range(-2, 2) as f64 * 0.5) }
+                else { d3::Vector::new(r.uniform(-spread, spread), r.uniform(-spread, spread), r.uniform(-1.0, 1.0)) };
+        let p = d3::Point::new(cx, cy, 0.0) + o;
+        let he = if lat { 0.5 } else { r.uniform(0.1, 0.8) };
+        Aabb::new(p - d3::Vector::new(he, he, he), p + d3::Vector::new(he, he, he))
+    };
+    // small tree: k leaves, leaf i in cluster perm[i]; optionally a few more per cluster (depth 2)
+    let k = match it % 4 { 0 => 4, 1 => 4, 2 => 3, _ => 1 + r.below(4) as usize };
+    let extra = if it % 5 == 4 { 1 + r.below(3) as usize } else { 0 };
+    let mut perm = [0usize, 1, 2, 3];
+    for i in 0..4 { let j = i + r.below((4 - i) as u64) as usize; perm.swap(i, j); }
+    let mut small = Hist::new(4 * (1 + extra) + 1);
+    let mut id = 0;
+    let mut items: Vec<(usize, Aabb)> = Vec::new();
+    for e in 0..1 + extra { for i in 0..k { let b = cell(r, perm[i], if e == 0 { 0.0 } else { 2.0 }); items.push((id, b)); id += 1; } }
+    if it % 3 == 0 { small.rebuild(&items, 0.0); } else { for (i, b) in &items { small.ins(*i, *b); } }
+    let m = gen_margin(r, lat); small.refit(m);
+    // big tree: 2..24 leaves per cluster (some clusters may stay empty)
+    let per = if thorough { 40 } else { 16 };
+    let mut big = Hist::new(4 * per + 1);
+    let mut items: Vec<(usize, Aabb)> = Vec::new();
+    let mut id = 0;
+    for c in 0..4 { let n = if r.below(6) == 0 { 0 } else { 2 + r.below(per as u64 - 1) as usize };
+        for _ in 0..n { let b = cell(r, c, 3.0); items.push((id, b)); id += 1; } }
+    if it % 2 == 0 { big.rebuild(&items, *r.pick(&[0.0, 0.0, 0.01])); if r.bool() { let m = gen_margin(r, lat); big.refit(m); big.rebalance(m); } }
+    else { for (i, b) in &items { big.ins(*i, *b); if r.below(10) == 0 { let m = gen_margin(r, lat); big.refit(m); } } }
+    let m = gen_margin(r, lat); big.refit(m);
+    let (h1, h2) = if (it / 2) % 2 == 0 { (small, big) } else { (big, small) };
+    ("bvttall".to_string(), format!("{} {} 0", h1.args(), h2.args()))
+}
+
 pub fn gen(r: &mut Rng, thorough: bool) -> Vec<(String, String)> {
     let mut v = Vec::new();
     // the code's own validator after every operation of every history family
@@ -254,5 +294,8 @@ pub fn gen(r: &mut Rng, thorough: bool) -> Vec<(String, String)> {
         let limit = *r.pick(&[1usize, 1, 2, 3, 5, 9, 1000000]);
         v.push(((if it % 4 == 3 { "dfsxp" } else { "dfsx" }).to_string(), format!("{} {} {}", h.args(), hb(&qb), limit)));
     }
+    // lane-separating layouts for every simultaneous entry point (sequential and parallel), both orders
+    let nl = if thorough { 120 } else { 32 };
+    for it in 0..nl { v.push(gen_bvtt_lanes(r, thorough, it)); }
     v
 }
